@@ -12,6 +12,46 @@ COMMON_NOTE = ("Trusted base: clang 14's parser/Sema/record layout/CFG, the op2f
                "source, not that the behaviour was observed. ")
 
 CLAIMED = {
+    "C01": {
+        "rules": "R-ORDER, R-MUSTCALL, R-SIB, R-ACCT, R-COPYEXT, R-SEQ, R-COUNT",
+        "text": "Static analysis of VolFile::CreateArchive and the lookup / extraction path: every refusal (duplicate names, "
+                "output names an input, sizes) completes before the output FileWriter is constructed and nothing that can "
+                "refuse runs afterwards; the input list is sorted by the checked case-insensitive file-name comparator before "
+                "anything is derived, and names / readers / entries are derived by order-preserving loops; Contains and "
+                "GetIndex use the same case-blind path equality; recorded header lengths, first block offset and block step "
+                "equal the bytes emitted (linear normalisation of the source expressions plus the R4 alignment lemma); block "
+                "i is header(size_i) + a copy of input i whose Length() was recorded as size_i and which is untouched before "
+                "the copy; member streams and extraction are slices of exactly the recorded block length; the writer emits the "
+                "frozen VOL description with kind 'uncompressed'.",
+        "note": "Declined: byte equality of extracted content and exact sizes, the 128 KiB chunk boundary, final-path-component "
+                "naming inside std::filesystem.",
+        "design": "4/C01",
+    },
+    "C02": {
+        "rules": "R-SEQ (writer == frozen description; reader section order), R-LAYOUT, R-NOPAD, R-ACCT, R-MUSTCALL, R-INDEX, R-TAINT, R-COPYEXT",
+        "text": "Static analysis of the VOL writer against an independent description (spec/vol.seq.json, spec/layout.json): "
+                "section tags, order, the expression feeding each recorded length, packed record layouts incl. the 31-bit "
+                "length, compression-kind values; lengths tile the header and blocks are contiguous and 4-aligned (R-ACCT); "
+                "entries sorted by the checked comparator. Reader: sections requested in format order with the tag compared; "
+                "only whole index entries are read; counting stops at the first unused slot and only used slots need names; "
+                "count <= names and count <= entries hold as derived class invariants, so over-long index sections and unused "
+                "trailing slots are handled safely; member streams are slices of the block header's length.",
+        "note": "Declined: equality of names/sizes/kinds/payloads with an independent encoder's intent (values) - replaced by "
+                "agreement with an independent description of the format.",
+        "design": "4/C02",
+    },
+    "C03": {
+        "rules": "R-SEQ, R-LAYOUT, R-NOPAD, R-ACCT, R-COPYEXT, R-ORDER, R-MUSTCALL, R-SIB, R-INIT, R-TAINT(loop progress)",
+        "text": "Static analysis of the CLM archive code: header + index are written and read in the same shape equal to the "
+                "frozen description, records / version string / tags as documented; first data offset = header + index and "
+                "step = data length, RIFF size formula; what is stored for member i is Slice(dataLength_i) of the input "
+                "positioned at its data chunk (so chunks after the audio data are not stored), streams and extraction are "
+                "Slice(dataOffset, dataLength); non-WAV input, differing formats, over-long and duplicate names are refused "
+                "before the archive file is opened; inputs sorted by the checked comparator; WaveHeader::Create defines every "
+                "field; names zero-filled; the chunk walk's cursor cannot wrap.",
+        "note": "Declined: equality of audio bytes and reported lengths with the source chunk (values).",
+        "design": "4/C03",
+    },
     "C04": {
         "rules": "R-CURSOR(mask form), R-INIT, R-ACCT, R-LAYOUT(format constants and distance classes), R-INDEX, R-MUSTCALL, R-ATOMIC, R-ORDER, R-SEQ",
         "text": "Static analysis of the LZH decoder's structural clauses only: every store to the window write index and to "
